@@ -29,12 +29,18 @@ RULE = "case = (backend, workers, shots, seed, #circuits); all completion orders
 GATE_ROOT = "/dev/shm" if os.path.isdir("/dev/shm") else None
 
 
-def _batch(n, shots):
+def _batch(n, shots, sizes=None):
+    """n distinguishable circuits; `sizes` (gate counts, also changing the number of wires) makes the batch
+    heterogeneous so that any cost-based reordering of the batch inside the device becomes observable."""
     import pennylane as qp
 
     tapes = []
     for i in range(n):
         ops = [qp.RX(0.4 + 0.7 * i, 0), qp.RY(0.3 * (i + 1), 1), qp.CNOT([0, 1])]
+        if sizes is not None:
+            k = sizes[i % len(sizes)]
+            extra = [qp.RY(0.2 + 0.1 * i, 2), qp.CNOT([1, 2]), qp.RX(0.5, 2), qp.CNOT([2, 3])]
+            ops = [qp.RX(0.4 + 0.7 * i, 0)] + ([qp.RY(0.3 * (i + 1), 1), qp.CNOT([0, 1])] if k >= 2 else []) + (extra[: 2 * (k - 2)] if k > 2 else [])
         if shots is None:
             ms = [qp.expval(qp.Z(0)), qp.probs(wires=[0, 1])]
         else:
@@ -60,7 +66,7 @@ def check(spec):
     from mc import sched, x_exec
 
     backend, w, shots, seed, n = spec["backend"], spec["workers"], spec["shots"], spec["seed"], spec["n"]
-    tapes = _batch(n, shots)
+    tapes = _batch(n, shots, spec.get("sizes"))
     Gated = x_exec.make(backend)
     slow = backend in ("cf_procpool", "mp_pool")
     # serial reference: same seed, no workers
@@ -158,14 +164,22 @@ def run(ctx):
             for seed in (0, 42):
                 specs.append({"backend": "cf_threadpool", "workers": w, "shots": shots, "seed": seed, "n": n})
     specs.append({"backend": "serial", "workers": 1, "shots": 5, "seed": 42, "n": n})
+    # heterogeneous batches: every ordering of circuits of size 1, 2, 3 (and 4 in thorough)
+    import itertools as _it
+
+    for perm in _it.permutations((1, 2, 3) if ctx.quick else (1, 2, 3, 4), n):
+        for shots in (None, 5):
+            specs.append({"backend": "cf_threadpool", "workers": 2, "shots": shots, "seed": 42, "n": n, "sizes": list(perm)})
     heavy = []
     for be in ("cf_procpool", "mp_pool"):
         if ctx.quick:
-            heavy.append({"backend": be, "workers": 2, "shots": 5, "seed": 42, "n": 3, "max_orders": 2})
+            heavy.append({"backend": be, "workers": 2, "shots": 5, "seed": 42, "n": 3, "max_orders": 2, "sizes": [2, 1, 3]})
         else:
             for shots in (None, 5):
                 for w in (2, 3):
                     heavy.append({"backend": be, "workers": w, "shots": shots, "seed": 42, "n": 3})
+                heavy.append({"backend": be, "workers": 2, "shots": shots, "seed": 42, "n": 3, "sizes": [2, 1, 3], "max_orders": 2})
+                heavy.append({"backend": be, "workers": 2, "shots": shots, "seed": 42, "n": 3, "sizes": [1, 3, 2], "max_orders": 2})
     tot = {"executions": 0, "orders": 0}
 
     def job(s):
